@@ -355,16 +355,52 @@ Proof.
 Qed.
 
 (* ------------------------------------------------------------------ *)
-(* roundtrip: for EVERY tree of the flatten-able fragment (terminals, unary,
-   binary / comparator / arithmetic, ite), flatten prints a token sequence
-   that parses back to the same tree.  OPTOK is the lexer model applied to
-   one lexeme.  Unbounded: by structural induction on t. *)
+(* roundtrip: for EVERY tree of the flatten-able fragment, flatten prints a
+   token sequence that parses back to the same tree.  The fragment (flat_ok,
+   PrecSpec.v): terminals, unary, binary / comparator / arithmetic, ite, and
+   the two forms ast.Nodes.Operator.flatten prints in concrete syntax since
+   /repo ef8f9d8 - quantifiers ( \A x, y: body ) and ( LET f == e g == e' IN
+   body ) - nested in any way (C16_flat_ok_quant / C16_flat_ok_let spell the
+   well-formedness of those two out).  OPTOK is the lexer model applied to one
+   lexeme.  Unbounded: by structural induction on t, through the surface
+   trees of the whole grammar (C16_prec_determines_tree_full). *)
 Definition OPTOK : string -> token :=
   lex1 lex_rules lex_reserved lex_values lex_ignore.
 
 Theorem C16_roundtrip : forall t : tree,
   flat_ok PT OPTOK t -> parse PT (flatten OPTOK t) = Some t.
-Proof. exact (roundtrip PT C16_table_ok_bounded OPTOK). Qed.
+Proof. exact (roundtrip PT C16_table_ok_full_bounded OPTOK). Qed.
+
+(* a quantifier node is in the fragment iff it is \A or \E over a NON-EMPTY
+   list of binders (node "params") that are themselves in the fragment - the
+   parser reads a list of expressions there: variables x, primed variables
+   ( X x ) - and its body is in the fragment *)
+Theorem C16_flat_ok_quant : forall op po vs body,
+  flat_ok PT OPTOK (Opr op [Opr po vs; body]) <->
+  ((op = "\A" \/ op = "\E") /\ po = "params" /\ vs <> []
+   /\ Forall (flat_ok PT OPTOK) vs /\ flat_ok PT OPTOK body).
+Proof.
+  intros. rewrite flat_ok_quant. split.
+  - tauto.
+  - intros [Hop H]. split; [exact Hop|].
+    destruct Hop as [-> | ->]; vm_compute tty; vm_compute tval; tauto.
+Qed.
+
+(* a LET node is in the fragment iff its first operand is a NON-EMPTY list of
+   definitions  Bin CBinary "==" (Term KOpname name) e  (what the parser
+   builds for `name == e`) with e in the fragment, and its body is in the
+   fragment *)
+Theorem C16_flat_ok_let : forall op ds body,
+  flat_ok PT OPTOK (Opr op [Lst ds; body]) <->
+  (op = "LET" /\ ds <> []
+   /\ Forall (fun d => exists n e, d = Bin CBinary "==" (Term KOpname n) e
+                                  /\ flat_ok PT OPTOK e) ds
+   /\ flat_ok PT OPTOK body).
+Proof.
+  intros. rewrite flat_ok_let. unfold is_def. split.
+  - tauto.
+  - intros [-> H]. vm_compute tty. vm_compute tval. tauto.
+Qed.
 
 Definition ex_t : tree :=
   Bin CBinary "=>"
@@ -377,6 +413,30 @@ Proof.
   assert (F : flat_ok PT OPTOK ex_t)
     by (vm_compute; repeat split; (discriminate || (left; reflexivity) || idtac)).
   split; [exact F | exact (C16_roundtrip ex_t F)].
+Qed.
+
+(* non-vacuity with the new forms: a quantifier over two binders (one primed)
+   under negation, whose body is a LET with two definitions - the first a
+   quantifier, the second using the first - and a quantifier as the right
+   operand of => in the body of the LET *)
+Definition ex_tq : tree :=
+  Un "~"
+    (Opr "\A" [Opr "params" [Term KVar "x"; Un "X" (Term KVar "y")];
+       Opr "LET"
+         [Lst [Bin CBinary "==" (Term KOpname "f")
+                 (Opr "\E" [Opr "params" [Term KVar "z"];
+                            Bin CComparator "<" (Term KVar "z") (Term KVar "x")]);
+               Bin CBinary "==" (Term KOpname "g")
+                 (Bin CBinary "/\" (Term KVar "f") (Term KVar "y"))];
+          Bin CBinary "=>" (Term KVar "g")
+            (Opr "\E" [Opr "params" [Term KVar "w"]; Term KVar "w"])]]).
+Example C16_roundtrip_quant_let_ex :
+  flat_ok PT OPTOK ex_tq /\ parse PT (flatten OPTOK ex_tq) = Some ex_tq.
+Proof.
+  assert (F : flat_ok PT OPTOK ex_tq).
+  { vm_compute.
+    repeat split; (discriminate || (left; reflexivity) || (right; reflexivity) || idtac). }
+  split; [exact F | exact (C16_roundtrip ex_tq F)].
 Qed.
 
 (* ------------------------------------------------------------------ *)
@@ -443,15 +503,16 @@ Proof.
 Qed.
 
 (* roundtrip at string level: Parser().parse(tree.flatten()) = tree, for
-   every tree of the flatten-able fragment whose lexemes are lexically
-   valid (sflat: decided from the rule table) *)
+   every tree of the flatten-able fragment (quantifiers and LET included)
+   whose lexemes are lexically valid (sflat: decided from the rule table;
+   e.g. a variable must not be spelled like a reserved word) *)
 Theorem C16_roundtrip_string : forall t : tree,
   flat_ok PT OPTOK t ->
   sflat lex_rules lex_reserved lex_values lex_ignore OPTOK t None ->
   PS (flatten_str t) = Some t.
 Proof.
   exact (roundtrip_string lex_rules lex_reserved lex_values lex_ignore OPTOK
-           (proj2 (proj2 C16_lexer_table_ok_bounded)) PT C16_table_ok_bounded
+           (proj2 (proj2 C16_lexer_table_ok_bounded)) PT C16_table_ok_full_bounded
            (proj1 C16_lexer_table_ok_bounded)
            (proj1 (proj2 C16_lexer_table_ok_bounded))).
 Qed.
@@ -468,6 +529,26 @@ Proof.
   apply C16_roundtrip_string; [|exact S].
   vm_compute; repeat split; (discriminate || (left; reflexivity) || idtac).
 Qed.
+
+(* the printed forms of quantifiers and LET, exactly as ast.py prints them *)
+Example C16_roundtrip_string_quant_let_ex :
+  sflat lex_rules lex_reserved lex_values lex_ignore OPTOK ex_tq None /\
+  flatten_str ex_tq
+  = "( ~ ( \A x, ( X y ): ( LET f == ( \E z: ( z < x ) ) g == ( f /\ y ) IN ( g => ( \E w: w ) ) ) ) )" /\
+  PS (flatten_str ex_tq) = Some ex_tq.
+Proof.
+  assert (S : sflat lex_rules lex_reserved lex_values lex_ignore OPTOK ex_tq None)
+    by (vm_compute; repeat split).
+  split; [exact S | split; [reflexivity|]].
+  apply C16_roundtrip_string; [exact (proj1 C16_roundtrip_quant_let_ex) | exact S].
+Qed.
+
+(* a reserved word as a bound variable is outside the lexical side condition:
+   the printed string would not lex to the tokens of the tree *)
+Example C16_sflat_rejects_reserved_binder :
+  ~ sflat lex_rules lex_reserved lex_values lex_ignore OPTOK
+      (Opr "\E" [Opr "params" [Term KVar "IN"]; Term KVar "x"]) None.
+Proof. vm_compute. intros [_ [_ [_ [H _]]]]. discriminate. Qed.
 
 (* ------------------------------------------------------------------ *)
 (* spellings (operator core): token sequences that are yields of surface
@@ -589,6 +670,8 @@ Print Assumptions C16_respecting_tree_unique_full.
 Print Assumptions C16_full_generalises.
 Print Assumptions C16_doc_table_determines_tree.
 Print Assumptions C16_roundtrip.
+Print Assumptions C16_flat_ok_quant.
+Print Assumptions C16_flat_ok_let.
 Print Assumptions C16_spellings_partial.
 Print Assumptions C16_spellings.
 Print Assumptions C16_lex_rendered.
